@@ -191,9 +191,9 @@ impl OutputList {
 //@ replace[R-string] <<<text_buf.push_str(content);>>> => <<<string_push_str(&mut text_buf, content);>>>
 //@ replace[R-string] <<<text_buf.clear();>>> => <<<string_clear(&mut text_buf);>>>
 //@ replace-all[R-string] <<<!text_buf.is_empty()>>> => <<<!string_is_empty(&text_buf)>>>
-//@ after#1 <<<let content = Self::blank_line_remover(&text_buf);>>>
+//@ after?#1 <<<let content = Self::blank_line_remover(&text_buf);>>>
 //@ | assert(content@ == text_buf@); // the character data written is the character data of the events @C03.text.whole
-//@ after#2 <<<let content = Self::blank_line_remover(&text_buf);>>>
+//@ after?#2 <<<let content = Self::blank_line_remover(&text_buf);>>>
 //@ | assert(content@ == text_buf@); // (trailing text) @C03.text.whole.trailing
 //@ ensures
 //@ - r is Ok ==> final(writer).log() == old(writer).log() + log_after(self.events@, self.events@.len() as int) + flush(buf_after(self.events@, self.events@.len() as int))     @@C02.text.escaped_once @@C03.write.in_order @@C05.write.in_order
